@@ -28,6 +28,8 @@ type Model struct {
 	Acked map[uint64]bool
 	// Truncated marks indexes that a tail truncation removed at some point.
 	Truncated map[uint64]bool
+	// Deleted is set once a DeleteRange removed something on this path.
+	Deleted bool
 }
 
 func NewModel() *Model {
@@ -35,7 +37,7 @@ func NewModel() *Model {
 }
 
 func (m *Model) Clone() *Model {
-	c := &Model{First: m.First, Last: m.Last, E: make(map[uint64]*raft.Log, len(m.E)), Stable: make(map[string][]byte, len(m.Stable)),
+	c := &Model{Deleted: m.Deleted, First: m.First, Last: m.Last, E: make(map[uint64]*raft.Log, len(m.E)), Stable: make(map[string][]byte, len(m.Stable)),
 		Hist: make(map[uint64][]string, len(m.Hist)), Acked: make(map[uint64]bool, len(m.Acked)), Truncated: make(map[uint64]bool, len(m.Truncated))}
 	for k, v := range m.Truncated {
 		c.Truncated[k] = v
@@ -96,6 +98,7 @@ func (m *Model) DeleteRange(min, max uint64) error {
 	if m.Empty() || max < m.First || min > m.Last {
 		return nil
 	}
+	m.Deleted = true
 	switch {
 	case min <= m.First:
 		// head truncation, may empty the log
@@ -122,6 +125,7 @@ func (m *Model) DeleteRange(min, max uint64) error {
 		m.Last = min - 1
 		return nil
 	default:
+		m.Deleted = false
 		return ErrModelReject
 	}
 }
